@@ -231,6 +231,77 @@ static std::string ut(Toks& t) {
     return o.str();
 }
 
+
+// ---------------------------------------------------------------------------------- unscented transform, circular / quaternion layouts
+
+static Vector4d qmul(const Vector4d& a, const Vector4d& b) {
+    Vector4d r;
+    r(0) = a(0) * b(0) - a(1) * b(1) - a(2) * b(2) - a(3) * b(3);
+    r(1) = a(0) * b(1) + a(1) * b(0) + a(2) * b(3) - a(3) * b(2);
+    r(2) = a(0) * b(2) + a(2) * b(0) + a(3) * b(1) - a(1) * b(3);
+    r(3) = a(0) * b(3) + a(3) * b(0) + a(1) * b(2) - a(2) * b(1);
+    return r;
+}
+
+// utc linI circI quatI nz linO circO k a b kap valid | A (linO x (linI+nz)) | bl (linO) | Cl (circO x linI) | sgn (circO) | perm (circO)
+//     | bc (circO) | pq (4 x circO) | side (circO) | means (dim0 x k) | covs (dof0 x dof0*k) | Qin (nz x nz)
+// The map: linear outputs affine in the linear and noise inputs; Euler outputs  sgn * angle[perm] + Cl x_lin + bc;
+// quaternion outputs  p (x) q[perm]  (side 0)  or  q[perm] (x) p  (side 1).
+static std::string utc(Toks& t) {
+    long linI = t.nat(), circI = t.nat(); bool quat = t.flag(); long nz = t.nat(), linO = t.nat(), circO = t.nat(), k = t.nat();
+    double a = t.dbl(), b = t.dbl(), kap = t.dbl(); bool valid = t.flag();
+    MatrixXd A = t.mat(linO, linI + nz); VectorXd bl = t.vec(linO);
+    MatrixXd Cl = t.mat(circO, linI); VectorXd sgn = t.vec(circO);
+    std::vector<long> perm; for (long i = 0; i < circO; ++i) perm.push_back(t.nat());
+    VectorXd bc = t.vec(circO); MatrixXd pq = t.mat(4, circO);
+    std::vector<long> side; for (long i = 0; i < circO; ++i) side.push_back(t.nat());
+    GaussianMixture g(k, linI, circI, quat);
+    g.mean() = t.mat(g.dim, k); g.covariance() = t.mat(g.dim_covariance, g.dim_covariance * k);
+    MatrixXd Qin = t.mat(nz, nz);
+    t.done();
+    for (long i = 0; i < circO; ++i) if (perm[i] < 0 || perm[i] >= circI) throw vh::BadArgs("perm");
+    if (nz > 0) g.augmentWithNoise(Qin);
+    const long cs = quat ? 4 : 1;
+    VectorDescription in(linI, circI, nz, ctype(quat)), out(linO, circO, 0, ctype(quat));
+    sigma_point::UTWeight w(in, a, b, kap);
+    Snapshot s0(g);
+    MatrixXd X = sigma_point::sigma_point(g, w.c);
+    MatrixXd Ykeep; long ncalls = 0;
+    sigma_point::FunctionEvaluation f = [&](const Ref<const MatrixXd>& x) -> std::tuple<bool, Data, VectorDescription> {
+        ++ncalls;
+        if (!valid) return std::make_tuple(false, Data(), out);
+        MatrixXd y(linO + circO * cs, x.cols());
+        MatrixXd xin(linI + nz, x.cols());
+        xin.topRows(linI) = x.topRows(linI);
+        if (nz > 0) xin.bottomRows(nz) = x.bottomRows(nz);
+        if (linO > 0) y.topRows(linO) = (A * xin).colwise() + bl;
+        for (long r = 0; r < circO; ++r) {
+            for (long j = 0; j < x.cols(); ++j) {
+                if (quat) {
+                    Vector4d q = x.block(linI + 4 * perm[r], j, 4, 1), p = pq.col(r);
+                    y.block(linO + 4 * r, j, 4, 1) = side[r] == 0 ? qmul(p, q) : qmul(q, p);
+                } else {
+                    double v = sgn(r) * x(linI + perm[r], j) + bc(r);
+                    for (long l = 0; l < linI; ++l) v += Cl(r, l) * x(l, j);
+                    y(linO + r, j) = v;
+                }
+            }
+        }
+        Ykeep = y;
+        return std::make_tuple(true, Data(std::move(y)), out);
+    };
+    bool flag; GaussianMixture res; MatrixXd cross;
+    std::tie(flag, res, cross) = sigma_point::unscented_transform(g, w, f);
+    Out o; o.s("ok"); o.n(flag ? 1 : 0);
+    o.n((long)res.components); o.n((long)res.dim); o.n((long)res.dim_covariance); o.n((long)cross.rows()); o.n((long)cross.cols());
+    o.n((long)X.rows()); o.n((long)X.cols()); o.n(ncalls);
+    o.m(w.mean); o.m(w.covariance); o.d(w.c);
+    o.m(X);
+    if (flag) { o.m(Ykeep); outGM(o, res); o.m(cross); }
+    o.s(s0.same(g) ? "in-same" : "in-modified");
+    return o.str();
+}
+
 // ---------------------------------------------------------------------------------- UKF vs KF
 
 // ukfp variant n nz k a b kap skip exo | F | [G (n x nz)] | Q (variant 0: n x n; 1: nz x nz) | [Qeff (n x n)] | u | means | covs | outw
@@ -322,6 +393,7 @@ int main() {
         if (op == "utwd") { out = utwd(t); return true; }
         if (op == "sp") { out = sp(t); return true; }
         if (op == "ut") { out = ut(t); return true; }
+        if (op == "utc") { out = utc(t); return true; }
         if (op == "ukfp") { out = ukfp(t); return true; }
         if (op == "ukfc") { out = ukfc(t); return true; }
         return false;
